@@ -15,6 +15,10 @@
 // answers: ok | miss | hit <v> | detached <t,t,…> | cached <body> | built <answer;answer;…>, each followed by
 // " | <keys> <triggers>" (stats of the shared cache after the line)
 #include "common.h"
+#include "buddy_allocator.h"
+#define private public	// shmem_control::memory_ / size_ are read (never written) for the low-memory flag
+#include "shmem_allocator.h"
+#undef private
 #include <cppcms/service.h>
 #include <cppcms/application.h>
 #include <cppcms/applications_pool.h>
@@ -34,6 +38,18 @@
 
 static time_t virtual_now = 1000;
 extern "C" time_t time(time_t *t) { if(t) *t=virtual_now; return virtual_now; }
+
+// memory pressure in the shared segment of the process_shared back-end (see harness/c07.cpp): the check_limits hook
+// notes whether the allocator's largest free chunk was below 10 % of the segment at any evaluation of the loop guard
+namespace cppcms { namespace impl { struct process_settings { static shmem_control *process_memory; }; } }
+extern "C" { extern void (*cppcms_verif_limits_hook)(int in_loop); }
+static bool pressure_seen=false;
+static bool segment_low()
+{
+	cppcms::impl::shmem_control *m=cppcms::impl::process_settings::process_memory;
+	return m && m->memory_->max_free_chunk() < m->size_/10;
+}
+static void limits_hook(int) { if(segment_low()) pressure_seen=true; }
 
 static std::string trig_name(std::string const &w,bool &ok) { std::string t; ok=true; if(w=="e") return t; ok=vh::unhex(w,t) && w!="-"; return t; }
 static bool parse_trigs(std::string const &w,std::set<std::string> &out)
@@ -115,6 +131,7 @@ struct server {
 	std::unique_ptr<cppcms::cache_interface> ci;
 	recs_t recs;
 	std::string sock;
+	bool process;
 	struct runner { server *self; void operator()() const { try { self->srv->run(); } catch(...) {} } };
 	int connect_fd()
 	{
@@ -125,6 +142,9 @@ struct server {
 	}
 	void stop()
 	{
+		// the process-shared cache object is never destroyed (del_ref() is false): empty it, so that it does not keep
+		// the segment occupied for the services created later in this process
+		if(ci.get() && process) ci->clear();
 		recs.clear(); ci.reset();
 		if(srv.get()) { srv->shutdown(); if(thr.get()) thr->join(); thr.reset(); srv.reset(); }
 	}
@@ -132,6 +152,7 @@ struct server {
 	bool start(std::string const &backend,std::string const &limit,std::string const &memory)
 	{
 		stop();
+		process=(backend=="process");
 		sock="c07i.sock"; ::unlink(sock.c_str());
 		cppcms::json::value cfg;
 		cfg["service"]["api"]="scgi";
@@ -175,7 +196,10 @@ static server g;
 static std::string tail()
 {
 	unsigned k=0,t=0; g.ci->stats(k,t);
-	std::ostringstream ss; ss<<" | "<<k<<" "<<t; return ss.str();
+	std::ostringstream ss; ss<<" | "<<k<<" "<<t;
+	if(g.process && (pressure_seen || segment_low())) ss<<" lowmem";	// an entry may legitimately have been evicted / dropped
+	pressure_seen=false;
+	return ss.str();
 }
 
 static std::vector<std::string> split(std::string const &s,char c)
@@ -210,6 +234,7 @@ static std::string run(std::vector<std::string> const &w)
 
 int main()
 {
+	cppcms_verif_limits_hook=limits_hook;
 	int r=vh::drive(run);
 	g.stop();
 	return r;
